@@ -587,6 +587,7 @@ func runC15FS(c C15FSCase) (bool, error) {
 					// which clause wins
 					admissible[cached.version] = true
 					admissible[origin.version] = true
+					candidates(name, admissible) // the loader may have re-resolved the name meanwhile
 					if has && cur.root < cached.root {
 						admissible[cur.version] = true
 					}
